@@ -85,7 +85,8 @@ def random_csv(rng: random.Random, i: int) -> dict:
     if rng.random() < 0.5:
         rng.shuffle(rows)
     return {"id": i, "rows": rows, "sort": rng.random() < 0.6, "period": "1d" if flavour == "yahoo" else rng.choice(["1m", "1h", "1d"]),
-            "flavour": flavour, "encoding": rng.choice(ENCODINGS), "scale": rng.choice([1, 100, 10**8])}
+            "flavour": flavour, "encoding": rng.choice(ENCODINGS), "scale": rng.choice([1, 100, 10**8]),
+            "tz_min": rng.choice([0, 0, -300, 120, 330, -570])}
 
 
 def check(rep: Report, tier: str, seed: int, prop: str = None):
